@@ -9,13 +9,18 @@ CONFIG = {
     "trusted_base": [
         "POSIX lseek/write on a regular file (write beyond EOF zero-fills the gap, a zero-byte write changes nothing): modelled by writeAt; agreement checked on real temp files on every run",
         "encoding/binary (fixed-size structs round-trip byte for byte): record images are opaque to the model; the struct layout is property C01",
-        "flock/fcntl locks and the in-process lock table of cmsys/lock.go: sequential use only; concurrency is property C15/C19",
+        "flock/fcntl locks and the in-process lock table of cmsys/lock.go: sequential use only; concurrency is property C14/C15/C19",
+        "SysV shared-memory board cache (cache.ReloadBCache, GetBid, ResetBoard, SortBCache): used as is by the callers layer; its search is property C11",
     ],
     "modelled": ["cmsys.GetNumRecords", "cmsys.GetRecords", "cmsys.AppendRecord", "cmsys.SubstituteRecord", "cmsys.DeleteRecord",
-                 "ptt.ModifyDirLite", "types.Cstrcmp (== 0)"],
+                 "ptt.ModifyDirLite", "types.Cstrcmp (== 0)",
+                 "ptt.addBoardRecord (through ptt.NewBoard/mNewbrd; the only caller of SubstituteRecord; index expression regenerated)",
+                 "cache.reloadCacheLoadBottom / cache.SetBottomTotal (count guards regenerated) / cache.GetBTotalWithRetry cold path / ptt.LoadBottomArticles"],
     "assumptions": [
         "open/flock/fcntl/write do not fail for environmental reasons (disk full, permissions); only argument-provoked errors are modelled",
         "a crash cuts an append inside its single write(2) (the tail left behind is a prefix of the record image: pre-seeded torn tails of every length) or kills the process at a syscall boundary (thorough tier: strace signal injection); no reordering of the write against later writes (no power-loss model)",
         "GetRecords is driven with n <= 10^6 (it allocates capacity n up front)",
+        "callers layer: the board cache agrees with .BRD (reloaded after every reset); at most one vacated .BRD slot at a time (with several, cache.GetBid(\"\") picks one by bisection: C11); the board record NewBoard builds is predicted by the harness for BMs=nil/attr=0/level=0 and carried in the op line (its content is C12); the board whose .DIR.bottom is read has a non-empty .DIR (so one read makes it warm)",
+        ".DIR.bottom with more than 5 records is outside the property: SetBottomTotal then unlinks the file by design (pttbbs sanity rule) - mirrored and compared, not judged",
     ],
 }
